@@ -10,6 +10,9 @@ def main(args):
             or (isinstance(ev, dict) and ev.get("engine") == "dbfiles"):
         import dbfiles
         return dbfiles.replay(p)
+    if isinstance(p.get("detail"), dict) and p["detail"].get("meta") == "lock":
+        import faults
+        return faults.replay(p)
     if isinstance(p.get("detail"), dict) and p["detail"].get("meta"):
         import metamorphic
         return metamorphic.replay_main(p)
